@@ -334,6 +334,24 @@ func handleLMove(params internal.HandlerFuncParams) ([]byte, error) {
 		return nil, errors.New("both source and destination must be lists")
 	}
 
+	// When source and destination are the same key, the element is moved within that one list.
+	if source == destination {
+		element, rest := sourceList[0], sourceList[1:]
+		if whereFrom == "right" {
+			element, rest = sourceList[len(sourceList)-1], sourceList[:len(sourceList)-1]
+		}
+		rotated := make([]string, 0, len(sourceList))
+		if whereTo == "left" {
+			rotated = append(append(rotated, element), rest...)
+		} else {
+			rotated = append(append(rotated, rest...), element)
+		}
+		if err = params.SetValues(params.Context, map[string]interface{}{source: rotated}); err != nil {
+			return nil, err
+		}
+		return []byte(constants.OkResponse), nil
+	}
+
 	switch whereFrom {
 	case "left":
 		err = params.SetValues(params.Context, map[string]interface{}{
